@@ -398,7 +398,8 @@ for _n, _ti in [('_ZSt20__throw_length_errorPKc', '_ZTISt12length_error'), ('_ZS
                 ('_ZSt17__throw_bad_allocv', '_ZTISt9bad_alloc'), ('_ZSt28__throw_bad_array_new_lengthv', '_ZTISt20bad_array_new_length'),
                 ('_ZSt25__throw_bad_function_callv', '_ZTISt17bad_function_call'), ('_ZSt26__throw_bad_variant_accessPKc', '_ZTISt18bad_variant_access'),
                 ('_ZSt26__throw_bad_variant_accessb', '_ZTISt18bad_variant_access'),
-                ('_ZSt16__throw_bad_castv', '_ZTISt8bad_cast'), ('_ZSt21__throw_runtime_errorPKc', '_ZTISt13runtime_error')]:
+                ('_ZSt16__throw_bad_castv', '_ZTISt8bad_cast'), ('_ZSt21__throw_runtime_errorPKc', '_ZTISt13runtime_error'),
+                ('__cxa_bad_cast', '_ZTISt8bad_cast'), ('__cxa_bad_typeid', '_ZTISt10bad_typeid')]:
     MODELS[_n] = _std_throw(_ti)
 
 @model('_ZNSt11logic_errorC1EPKc', '_ZNSt11logic_errorC2EPKc', '_ZNSt12domain_errorC1EPKc', '_ZNSt12domain_errorC2EPKc',
